@@ -151,7 +151,7 @@ Theorem map_cycle_refines_spec : forall (S : Type) (B : Z -> body S) (keys : lis
   Link B keys n -> step_ok keys n c x ->
   forall j, In j keys ->
   (nabs (node_cycle B keys n c x) j, c_ev B keys n c x j) =
-  key_step (B j) (c_t c) (c_bc c) j (nabs n j) (ops_on j (c_ops c)).
+  key_step (B j) (c_t c) (c_bc c j) j (nabs n j) (ops_on j (c_ops c)).
 Proof. exact @MapNodeFacts.key_refines. Qed.
 Print Assumptions map_cycle_refines_spec.
 
@@ -195,10 +195,10 @@ Print Assumptions map_output_stream_refines_spec.
    key 6 lives alongside.  The re-added key restarts from 0 (3, not 14); key 6 is unaffected. *)
 Example c10_spec_nontrivial :
   let B := fun _ : Z => vbody (mkV false false [SAcc]) in
-  let h := [mkCyc 1 [] [(0%nat, 1, 5, 10); (0%nat, 1, 6, 20)];
-            mkCyc 2 [] [(0%nat, 1, 5, 1)];
-            mkCyc 3 [] [(0%nat, 2, 5, 0); (0%nat, 1, 6, 7)];
-            mkCyc 4 [] [(0%nat, 1, 5, 3)]] in
+  let h := [mkCyc 1 (fun _ => []) [(0%nat, 1, 5, 10); (0%nat, 1, 6, 20)];
+            mkCyc 2 (fun _ => []) [(0%nat, 1, 5, 1)];
+            mkCyc 3 (fun _ => []) [(0%nat, 2, 5, 0); (0%nat, 1, 6, 7)];
+            mkCyc 4 (fun _ => []) [(0%nat, 1, 5, 3)]] in
   let r := run B (start_state 1 [5; 6]) h in
   map (fun te => (fst te, option_map ev_out (snd te))) (rev (key_trace 5 (r_log r)))
     = [(1, Some (Some 10)); (2, Some (Some 11)); (3, Some None); (4, Some (Some 3))] /\
@@ -221,13 +221,13 @@ Proof. vm_compute. split; reflexivity. Qed.
    removal, and the re-use of its slot by the re-added key. *)
 Definition c10_node_hist : list (cyc * env) :=
   let x := mkEnv (fun j => if j =? 5 then 0%nat else 1%nat) [] false false in
-  [(mkCyc 1 [] [(0%nat, 1, 5, 10)], x);
-   (mkCyc 2 [] [(0%nat, 1, 6, 20)], x);
-   (mkCyc 3 [] [], x);
-   (mkCyc 4 [] [], x);
-   (mkCyc 5 [] [(0%nat, 2, 5, 0)], x);
-   (mkCyc 6 [] [(0%nat, 1, 5, 7)], x);
-   (mkCyc 9 [] [], x)].
+  [(mkCyc 1 (fun _ => []) [(0%nat, 1, 5, 10)], x);
+   (mkCyc 2 (fun _ => []) [(0%nat, 1, 6, 20)], x);
+   (mkCyc 3 (fun _ => []) [], x);
+   (mkCyc 4 (fun _ => []) [], x);
+   (mkCyc 5 (fun _ => []) [(0%nat, 2, 5, 0)], x);
+   (mkCyc 6 (fun _ => []) [(0%nat, 1, 5, 7)], x);
+   (mkCyc 9 (fun _ => []) [], x)].
 
 Example c10_node_nontrivial :
   (forall j s bi, bi_now bi < MAX_ET ->
